@@ -36,6 +36,11 @@ def main():
     all_checks = [c["property_id"] for c in manifest["checks"]]
     checks = checks or all_checks
     out = {"name": name, "confirm": {}, "detected_by": [], "not_detected_by": [], "details": {}}
+    if skip_confirm and os.path.exists(meta):
+        try:
+            out["confirm"] = json.load(open(meta)).get("evaluation", {}).get("confirm", {})
+        except Exception:
+            pass
     demo_name = "demo_" + re.sub(r"[^A-Za-z0-9_]", "_", name)
     if not skip_confirm:
         sh(f"git -C {REPO} worktree remove --force {SCRATCH}")
